@@ -3,6 +3,7 @@ C40 — model of the authentication decision (core-only).
 
 Go code modelled (sql/mysql_db/auth.go, mysql_db.go):
 * `validateMysqlNativePassword`                       → `validateNative`   (Impl, `none` = run-time panic) / `validateNativeSpec`
+  (`validateNativePreFix`: the function before the `fix:` commit that added the response-length guard)
 * `nativePasswordHashStorage.UserEntryWithHash`,
   `MySQLDb.ValidateHash` (same decision logic)         → `authNative`
 * `userValidator.HandleUser` + `decoyAuthSubject`      → `handleUser`
@@ -101,7 +102,8 @@ def decodeStored (stored : List Char) : Option Bytes :=
 /-! ## `validateMysqlNativePassword` -/
 
 /-- Go: `for i := range scramble { scramble[i] ^= authResponse[i] }` — `none` when `authResponse` is shorter
-than `scramble` (index out of range); bytes of `authResponse` beyond `len(scramble)` are never read. -/
+than `scramble` (index out of range); bytes of `authResponse` beyond `len(scramble)` are never read. (Since the
+`fix:` commit the loop is only reached with `len(authResponse) == len(scramble)`.) -/
 def xorPrefix : Bytes → Bytes → Option Bytes
   | [], _ => some []
   | _ :: _, [] => none
@@ -112,8 +114,10 @@ def xor : Bytes → Bytes → Bytes
   | s :: ss, r :: rs => (s ^^^ r) :: xor ss rs
   | _, _ => []
 
-/-- Impl model. `none` = the Go function panics. -/
-def validateNative (H : Bytes → Bytes) (resp salt : Bytes) (stored : List Char) : Option Bool :=
+/-- Impl model of the code **before** the `fix:` commit (no length check between the computation of the
+scramble and the XOR loop). Kept only to state the witnesses `Gms.C40.fixed_native_short_response_oob` and
+`Gms.C40.fixed_native_long_response_accepted`. `none` = the Go function panics. -/
+def validateNativePreFix (H : Bytes → Bytes) (resp salt : Bytes) (stored : List Char) : Option Bool :=
   if resp.isEmpty || stored.isEmpty then some false
   else
     match decodeStored stored with
@@ -122,6 +126,22 @@ def validateNative (H : Bytes → Bytes) (resp salt : Bytes) (stored : List Char
       match xorPrefix (H (salt ++ hash)) resp with
       | none => none
       | some stage1 => some (H stage1 == hash)
+
+/-- Impl model (repaired code). After `scramble := crypt.Sum(nil)` and before the XOR loop:
+`if len(authResponse) != len(scramble) { return false }`. `none` = the Go function panics — the loop is
+transliterated as before (`xorPrefix`), that it cannot panic any more is a theorem
+(`Gms.C40.native_no_crash`), not a feature of the model. -/
+def validateNative (H : Bytes → Bytes) (resp salt : Bytes) (stored : List Char) : Option Bool :=
+  if resp.isEmpty || stored.isEmpty then some false
+  else
+    match decodeStored stored with
+    | none => some false
+    | some hash =>
+      if resp.length != (H (salt ++ hash)).length then some false
+      else
+        match xorPrefix (H (salt ++ hash)) resp with
+        | none => none
+        | some stage1 => some (H stage1 == hash)
 
 /-- Spec: the response is a 20-byte token `t` with `H (t ⊕ H (salt ++ stored)) = stored`; anything else
 (empty, short, long, undecodable stored hash) is rejected. -/
@@ -133,7 +153,8 @@ def validateNativeSpec (H : Bytes → Bytes) (resp salt : Bytes) (stored : List 
 /-- What a client that knows `h1 = H(password)` sends (vitess `ScrambleMysqlNativePassword`). -/
 def clientToken (H : Bytes → Bytes) (salt h1 : Bytes) : Bytes := xor h1 (H (salt ++ H h1))
 
-/-- Regions of the two defects of the scramble check. -/
+/-- Regions of the two repaired defects of the scramble check (value classes on which the pre-fix code
+differed from the Spec; used by the `fixed_…` witnesses only — the driver names no region any more). -/
 def shortResponse (resp : Bytes) (stored : List Char) : Bool :=
   0 < resp.length && resp.length < 20 && !stored.isEmpty && (decodeStored stored).isSome
 
